@@ -26,7 +26,7 @@ COMPONENTS = {
     'stub': ['record producer (RBQLInputIterator implementation: finite / endless / stalling)', 'recording output writer', 'in-memory join registry'],
 }
 ASSUMPTIONS = [
-    'consumption: with bound n >= 1 the bounded run may pull at most as many records as the unbounded run had pulled when it wrote its n-th output',
+    'consumption: with bound n >= 1 the bounded run may pull at most as many records as its first n outputs need, i.e. the smallest input prefix over which the unbounded query already yields n outputs (found by walking down from the pull count of the unbounded run)',
     'n = 0: the engine learns the bound only at its first output candidate; pulls up to that candidate are tolerated (deliberate leniency), no-candidate producers are discarded',
     'the order/dedup model sorts the engine\'s own unsorted projected stream, so projection errors (C01) are outside this check',
     'sort keys are strings or ints of one type per column; cross-type ordering is not generated',
@@ -115,14 +115,20 @@ def make_classes(t):
             return rec
 
     class PyWriter(t.engine.RBQLOutputWriter):
-        def __init__(self, trace):
+        def __init__(self, trace, truthy=None):
             self.trace = trace
             self.rows = []
             self.header = None
+            self.truthy = truthy
 
         def write(self, fields):
             self.trace['pulls_at_write'].append(self.trace['pulls'])
             self.rows.append(fields)
+            # "go on" is any truthy value: a caller's writer may return what its own stream.write() returned
+            if self.truthy == 'count':
+                return len(fields) + 1
+            if self.truthy == 'str':
+                return 'ok'
             return True
 
         def set_header(self, header):
@@ -171,14 +177,14 @@ def render_csv(rows):
     return wr.rows
 
 
-def run_py(query, producer, join_rows, max_pulls=None, csv_writer=False, latency=None):
+def run_py(query, producer, join_rows, max_pulls=None, csv_writer=False, latency=None, truthy=None):
     t = core.load_tree()
     if 'c' not in _classes:
         _classes['c'] = make_classes(t)
     PyIterator, PyWriter, PyRegistry, PyCSVWriter = _classes['c']
     trace = {'pulls': 0, 'pulls_at_write': []}
     it = PyIterator(producer, 'a', trace, max_pulls)
-    wr = PyCSVWriter(trace) if csv_writer else PyWriter(trace)
+    wr = PyCSVWriter(trace) if csv_writer else PyWriter(trace, truthy)
     reg = PyRegistry(join_rows, trace) if join_rows is not None else None
     warnings = []
     try:
@@ -195,8 +201,10 @@ def run_py(query, producer, join_rows, max_pulls=None, csv_writer=False, latency
     return {'outcome': outcome, 'rows': rows, 'pulls': trace['pulls'], 'pulls_at_write': trace['pulls_at_write']}
 
 
-def run_js(query, producer, join_rows, max_pulls=None, csv_writer=False, latency=None):
+def run_js(query, producer, join_rows, max_pulls=None, csv_writer=False, latency=None, truthy=None):
     req = {'kind': 'query', 'query': query, 'producer': producer, 'max_pulls': max_pulls}
+    if truthy:
+        req['write_result'] = truthy
     if latency:
         req['write_latency'] = latency     # event-loop turns each write() of the output writer takes before it settles
     if join_rows is not None:
@@ -406,6 +414,8 @@ def generate(rng, tier, idx):
             sc['items'] = list(sc['items'])
             sc['items'][rng.choice(free)] = rng.choice(JS_SPECIAL_ITEMS)
             sc['js_only'] = True
+    if rng.random() < 0.12:
+        sc['writer_truthy'] = rng.choice(['count', 'str'])     # the caller's writer answers "go on" with a truthy value other than True
     if rng.random() < 0.15:
         # rbql-js only: an output writer whose write() settles after a varying number of event-loop turns (a writer doing real I/O)
         sc['js_write_latency'] = [rng.choice([0, 1, 2, 3]) for _ in range(rng.choice([2, 3, 5]))]
@@ -487,7 +497,7 @@ def check_engine(sc, eng, counters, res, digest_parts):
 
     def do(query, prod, max_pulls=None, plain=False):
         r = run(query, prod, join_rows, max_pulls, csv_writer=(use_csv and not plain),
-                latency=(sc.get('js_write_latency') if eng == 'js' and prod['type'] == 'finite' else None))
+                latency=(sc.get('js_write_latency') if eng == 'js' and prod['type'] == 'finite' else None), truthy=sc.get('writer_truthy'))
         res['evals'] += 1
         res['steps'] += r['pulls'] + len(r['pulls_at_write'])
         digest_parts.append([eng, query, r['outcome'], r['rows'], r['pulls']])
@@ -717,6 +727,10 @@ def shrinks(sc):
     if sc.get('js_write_latency'):
         c = dict(sc)
         c.pop('js_write_latency')
+        yield c
+    if sc.get('writer_truthy'):
+        c = dict(sc)
+        c.pop('writer_truthy')
         yield c
     if sc.get('bound'):
         b = sc['bound']
